@@ -1282,8 +1282,216 @@ def r9(cx):
     cx.floor(nwriters, 1, 'insertions into the alias table')
 
 
+
+# wave 5 -----------------------------------------------------------------------------------------------------------
+# R10: what follows an AliasSubstituted outcome; R11: what the is_command_name flag of take_token_manual is computed from
+PEEK = "yash_syntax::parser::core::Parser::<'a, 'b>::peek_token"
+WORDS_OWNERS = ('yash_syntax::parser::simple_command::Builder', 'yash_syntax::syntax::SimpleCommand')
+SIMPLE_COMMAND = "yash_syntax::parser::simple_command::<impl yash_syntax::parser::core::Parser<'_, '_>>::simple_command"
+
+
+@RS.rule('C17.R10', 'K-SIBLING', 'restart protocol: after an AliasSubstituted outcome the front token of the stream (first token of the '
+         'replacement, itself possibly an alias) is never consumed by take_token_raw before another substitution attempt '
+         '(take_token_manual / take_token_auto / a production), a return of Rec::AliasSubstituted, or a test of the re-read token id')
+def r10(cx):
+    F = cx.F
+    n = nmanual = 0
+    for b0 in F.bodies_in(['yash_syntax::parser::']):
+        if b0.root.startswith('yash_syntax::parser::core::'):
+            continue          # take_token_auto is the reviewed loop itself (R2): raw take, then Parser::substitute_alias again
+        if not any(b0.term(b)['k'] == 'switch' for b in b0.live_blocks()):
+            continue
+        du0 = Q.DefUse(b0)
+        if not _rec_matches(F, b0, du0):
+            continue
+        body = F.inlined(b0)
+        du = Q.DefUse(body)
+        matches = _rec_matches(F, body, du)
+        raws = {rb for rb, rt in Q.find_calls(body, [RAW])}
+        # another attempt at the front token / giving the decision back / an error / looking at the id of the re-read token
+        through = {x for x, pt in Q.find_calls(body, [MANUAL, AUTO, PSUB, PRODUCTION])}
+        through |= {x for x, j, s in Q.find_aggregates(body, REC, 'AliasSubstituted')}
+        through |= {x for x, pt in Q.find_calls(body, Q.FROM_RESIDUAL)}
+        through |= {x for x, j, s in Q.find_aggregates(body, 'core::result::Result', 'Err')}
+        peeked_tests = set()
+        for sb, keys, labels in _id_switches(F, body, du):
+            for l, fs in keys:
+                if fs != ('id',):
+                    continue
+                calls, toks, from_arg = _token_producers(body, du, l)
+                if calls and all(Q.callee_is(ct, [PEEK]) for cb, ct in calls):
+                    peeked_tests.add(sb)
+        for b, src, labels in matches:
+            if src is None:
+                continue          # reported by R5
+            prod = pp.callee(src).split('::')[-1]
+            for tgt, labs in labels.items():
+                if ('variant', 'AliasSubstituted') not in labs or len(labs) > 1:
+                    continue          # an undistinguished edge is R5's violation
+                n += 1
+                nmanual += 1 if Q.callee_is(src, [MANUAL]) else 0
+                cx.fn(body.root)
+                p = Q.must_pass(body, [tgt], through | peeked_tests, raws) if raws else None
+                cx.site('%s: AliasSubstituted edge of the match on %s at %s; %d raw takes in the function; reaches one without '
+                        'another attempt: %s' % (body.root, prod, body.loc(body.term(b)), len(raws), bool(p)))
+                if p:
+                    cx.violation(body.root, 'raw-take-after-substitution:%s' % prod, 'after %s reported an alias substitution the next token '
+                                 '(the first token of the replacement text) can be consumed by take_token_raw without another substitution '
+                                 'attempt and without a test of its id: substitution stops after one level, so an alias whose value is another '
+                                 'eligible alias name (after a blank-ending alias, or a global alias) is parsed as the intermediate name '
+                                 '(r=\'cat < \', g=h, h=file: `r g` reads file `h`); take the token with take_token_auto or retry take_token_manual'
+                                 % prod, loc=body.loc(body.term(p[-1])), path=Q.render_path(body, p))
+    cx.floor(n, 12, 'AliasSubstituted edges of matches on Rec in the productions')
+    cx.floor(nmanual, 5, 'AliasSubstituted edges of matches on the result of take_token_manual')
+
+
+def _bool_leaves(F, body, du, operand, site_block):
+    """Backward slice of a bool operand over data AND control dependence (a local with several definitions also depends on
+    the conditions that choose between them: `a && b` is `false` on one edge and `b` on the other).
+    Leaves: ('const', text) | ('call', term, block) | ('place', place) | ('arg', local) | ('other', text)."""
+    leaves = []
+    seen_l, seen_c = set(), set()
+    site_conds = {e for org, lab, e in Q.dominating_conditions(F, body, du, site_block)}
+
+    def from_operand(o):
+        if 'cp' not in o and 'mv' not in o:
+            leaves.append(('const', str(o.get('c'))))
+            return
+        from_place(Q.operand_place(o))
+
+    def from_origin(org):
+        k = org['k']
+        if k == 'call':
+            from_call(org['t'], org.get('b'))
+        elif k == 'const':
+            from_operand(org['o'])
+        elif k in ('place', 'discr', 'ref'):
+            from_place(org['pl'])
+        elif k in ('binop', 'unop', 'cast', 'agg'):
+            for o in Q.rvalue_operands(org['rv']):
+                from_operand(o)
+        elif k == 'arg':
+            leaves.append(('arg', org['l']))
+        else:
+            leaves.append(('other', k))
+
+    def from_call(t, b):
+        if Q.callee_is(t, PLUMBING) and t['a']:
+            from_operand(t['a'][0])
+        else:
+            leaves.append(('call', t, b))
+
+    def from_place(p):
+        if p is None:
+            return
+        if not Q.is_plain(p):
+            leaves.append(('place', p))
+            return
+        l = p['l']
+        if l in seen_l:
+            return
+        seen_l.add(l)
+        defs = du.defs.get(l, [])
+        if not defs:
+            leaves.append(('arg', l))
+            return
+        for b, j, node in defs:
+            if j == 't':
+                from_call(node, b)
+            elif node['k'] == 'assign':
+                rv = node['rv']
+                if rv['k'] in ('ref', 'discr'):
+                    from_place(rv['pl']) if Q.is_plain(rv['pl']) else leaves.append(('place', rv['pl']))
+                else:
+                    for o in Q.rvalue_operands(rv):
+                        from_operand(o)
+            else:
+                leaves.append(('other', node['k']))
+            if len(defs) > 1:
+                for org, lab, e in Q.dominating_conditions(F, body, du, b):
+                    if e in site_conds or e in seen_c:
+                        continue
+                    seen_c.add(e)
+                    from_origin(org)
+
+    from_operand(operand)
+    return leaves
+
+
+def _words_is_empty(body, du, t):
+    """Vec::is_empty on the `words` field of the simple-command accumulator."""
+    if not Q.callee_is(t, VEC_IS_EMPTY + ['alloc::vec::Vec::<T, A>::len']) or not t['a']:
+        return False          # (`words.len() == 0` is the same input; only the straight `is_empty` chain has its polarity checked)
+    o = du.origin(t['a'][0])
+    if o['k'] != 'ref':
+        return False
+    fields = [e for e in (o['pl'].get('p') or []) if isinstance(e, dict) and 'f' in e]
+    return bool(fields) and fields[-1]['f'] == 'words' and fields[-1].get('adt') in WORDS_OWNERS
+
+
+@RS.rule('C17.R11', 'K-TAINT', 'command position: the is_command_name flag given to take_token_manual is constant false, or computed from the '
+         'emptiness of the WORDS collected so far only (never from assignments or redirections: POSIX 2.3.1, 2.9.1); simple_command passes '
+         'that emptiness, not negated')
+def r11(cx):
+    F = cx.F
+    n = nwords = 0
+    for b0 in F.bodies_in(['yash_syntax::parser::']):
+        if b0.root.startswith('yash_syntax::parser::core::') or not Q.find_calls(b0, [MANUAL]):
+            continue
+        body = F.inlined(b0)
+        du = Q.DefUse(body)
+        cx.fn(body.root)
+        for b, t in Q.find_calls(body, [MANUAL]):
+            n += 1
+            cx.require(len(t['a']) == 2, 'take_token_manual(self, is_command_name) no longer has two arguments')
+            leaves = _bool_leaves(F, body, du, t['a'][1], b)
+            consts = sorted({x[1] for x in leaves if x[0] == 'const'})
+            words = [x for x in leaves if x[0] == 'call' and _words_is_empty(body, du, x[1])]
+            foreign = []
+            for x in leaves:
+                if x[0] == 'const' or x in words:
+                    continue
+                if x[0] == 'call':
+                    foreign.append('%s(%s)' % (pp.callee(x[1]).split('::')[-1], ', '.join(str(_deep_name(body, du, a)) for a in x[1]['a'])))
+                elif x[0] == 'place':
+                    foreign.append(str(_deep_name(body, du, {'cp': x[1]})))
+                elif x[0] == 'arg':
+                    foreign.append('parameter %s' % body.local_name(x[1]))
+                else:
+                    foreign.append(x[1])
+            foreign = sorted(set(foreign))
+            nwords += 1 if words and body.root == SIMPLE_COMMAND else 0
+            cx.site('%s: take_token_manual at %s: is_command_name from constants %s, words.is_empty x%d, other inputs %s'
+                    % (body.root, body.loc(t), consts, len(words), foreign or 'none'))
+            if foreign:
+                cx.violation(body.root, 'command-name-flag-depends-on:%s' % ','.join(re.sub(r'^.*\.', '', f.rstrip(')')) if '(' in f else f
+                                                                                   for f in foreign)[:120],
+                             'the is_command_name flag of take_token_manual depends on %s: whether a word is in command position depends only on '
+                             'whether a command WORD has been collected; assignment words and redirections in front of it do not take the '
+                             'position (`FOO=1 a x` and `</dev/null a x` must substitute alias a)' % ', '.join(foreign), loc=body.loc(t))
+            elif not words and consts != ['false']:
+                cx.violation(body.root, 'command-name-flag-constant', 'take_token_manual is told unconditionally that the token is a command '
+                             'name: non-global aliases are substituted in argument position', loc=body.loc(t))
+            elif words:
+                # polarity on a straight chain: is_command_name = words.is_empty(), not its negation
+                org, flips = du.origin(t['a'][1]), 0
+                for _ in range(4):
+                    if org['k'] == 'unop' and org['rv']['op'] == 'Not':
+                        org, flips = du.origin(org['rv']['o']), flips + 1
+                if org['k'] == 'call' and _words_is_empty(body, du, org['t']) and flips % 2:
+                    cx.violation(body.root, 'command-name-flag-negated', 'is_command_name is the negation of words.is_empty(): the command '
+                                 'name is not substituted and every argument is', loc=body.loc(t))
+    sc = F.main_body(SIMPLE_COMMAND)
+    cx.fn(sc.root)
+    if not nwords:
+        cx.violation(sc.root, 'command-name-never-flagged', 'simple_command no longer tells take_token_manual that the first word is a '
+                     'command name (emptiness of the collected words): aliases in command position are not substituted', loc=sc.loc(sc.d))
+    cx.floor(n, 5, 'calls of take_token_manual in the productions')
+
+
 # --- explanation addendum (generated catalogue in DESIGN.md reads RS.explanation)
 RS.explanation += ' Added later: substitute_alias refuses a substitution only through the reviewed tests (R1c); alias identity is answered by Source::is_alias_for only (R4b); line breaks are skipped again in every alias-retry loop that skipped them before the first attempt (R5b).'
 RS.explanation += ' Wave 3: a production returns Rec::AliasSubstituted only on paths where no token has been consumed and kept, unless an emptiness test of the accumulator that every consumed piece is pushed into dominates the return (R7); every Token.word moved into the syntax tree is behind a switch on the id of that very token, or of the peeked token that take_token_raw / take_token_manual=>Parsed is bound to return, never take_token_auto (R8).'
 RS.explanation += ' R8 also accepts the test of the peeked id when its verdict is materialised in a bool (`let ok = match id {..}; if !ok { break }`): paths are followed with the constant last assigned to that bool.'
 RS.explanation += ' R9 (sibling of the alias built-in): every implementation of Glossary::look_up consults the table (HashSet::get / inner look_up) under the unmodified name on every path except an is_empty shortcut, returns what the table answered, and refuses on a test of the name only if every insertion into the table (alias built-in define) is dominated by the same test - a test applied only under the portable option does not qualify.'
+RS.explanation += ' Wave 5: on no path from an AliasSubstituted edge of a match on Rec is take_token_raw reached before another substitution attempt (take_token_manual / take_token_auto / a production call), a return of Rec::AliasSubstituted, an error, or a test of the id of a token re-read with peek_token (R10: substitution is repeated until no alias applies); the is_command_name argument of every take_token_manual call in the productions is, over data and control dependence, a function of constants and Vec::is_empty of the `words` field of the simple-command accumulator only, simple_command has such a call, and the flag is not its negation (R11).'
